@@ -13,7 +13,21 @@ _case_counter = itertools.count(1)
 
 
 def pick_port_base(rng):
-    for _ in range(50):
+    """a block of 7 free loopback ports; concurrent checks of this machinery (other properties, background runs) keep out of each
+    other's way through lock files, since a block is chosen long before the simulator binds it"""
+    import atexit
+    import os
+    import time
+    lockdir = os.path.expanduser("~/.cache/servitor-verif/ports")
+    os.makedirs(lockdir, exist_ok=True)
+    for f in os.listdir(lockdir):
+        fp = os.path.join(lockdir, f)
+        try:
+            if time.time() - os.path.getmtime(fp) > 4 * 3600:
+                os.remove(fp)
+        except OSError:
+            pass
+    for _ in range(200):
         base = rng.randrange(21000, 60000, 16)
         ok = True
         for k in range(SIM_HOSTS + 1):
@@ -26,8 +40,16 @@ def pick_port_base(rng):
                 s.close()
             if not ok:
                 break
-        if ok:
-            return base
+        if not ok:
+            continue
+        lock = os.path.join(lockdir, str(base))
+        try:
+            fd = os.open(lock, os.O_CREAT | os.O_EXCL | os.O_WRONLY)
+            os.close(fd)
+        except OSError:
+            continue
+        atexit.register(lambda p=lock: os.path.exists(p) and os.remove(p))
+        return base
     raise RuntimeError("no free port range for the simulator")
 
 
